@@ -63,7 +63,36 @@ class C14(Oracle):
     def end(self, ctx, snap):
         if snap.parametrized or not snap.channels:
             return ()
-        return self.check_sampling(ctx, snap, None) + self.check_arrays(ctx, snap)
+        return self.check_sampling(ctx, snap, None) + self.check_arrays(ctx, snap) + self.check_tone(ctx, snap)
+
+    def check_tone(self, ctx, snap):
+        """A tone AT the modulation bandwidth is halved: evaluated with the run's
+        channel objects at their own (and EOM) bandwidth and at one seeded
+        bandwidth up to the 480 MHz a channel may declare. The tone sits on an
+        FFT bin (2000 samples, bandwidths in steps of 0.5 MHz), so the gain is
+        exact."""
+        v = []
+        for name, cs in snap.channels.items():
+            ch = cs.obj
+            if not ch.mod_bandwidth:
+                continue
+            bws = {float(ch.mod_bandwidth)}
+            if ch.supports_eom():
+                bws.add(float(ch.eom_config.mod_bandwidth))
+            bws.add([60.0, 250.0, 430.0, 450.5, 479.5][(snap.channels[name].end + len(name)) % 5])
+            n = np.arange(2000)
+            for bw in sorted(bws):
+                if (bw * 2) % 1:
+                    continue
+                x = np.cos(2 * np.pi * bw * 1e-3 * n)
+                y = _arr(ch.apply_modulation(x, bw))
+                gain = float(np.abs(y).max() / np.abs(x).max())
+                ctx.stats["tone_gains_checked"] += 1
+                if abs(gain - 0.5) > 1e-6:
+                    v.append(("C14/tone-at-bandwidth", f"{name}: a tone at the modulation bandwidth {bw} MHz comes out with gain {gain:.6f}, not 0.5"))
+                    return v
+            break
+        return v
 
     # ------------------------------------------------------------ (e) caches
     def remember(self, ctx, snap):
